@@ -1144,4 +1144,69 @@ example : g12RawBP.names = ["a", "a", "b7"] ∧
   refine ⟨by decide +kernel, by decide +kernel, by decide +kernel,
     .addElement _ _ _ (.setSpec _ _ _ .empty) g12Element_built, by decide +kernel⟩
 
+/-! ### edits issued through `sequence.element(pos)` -/
+
+/-- **`sequence.element(pos).changeArg(...)` delegates** (`Tools.modifyElement`, the model of editing
+    the stored element in place): at a position holding an element `e` the call raises exactly what
+    `e.changeArg` raises, the position then holds `e.changeArg`'s result, every other position is
+    untouched (combine with `element_changeArg_delegates` for the channel's blueprint) -/
+theorem sequence_element_changeArg_delegates (s : Sequence) (pos : ℤ) (e : Element)
+    (hg : Dict.get? s.data pos = some (.el e)) (ch : Chan) (name : String) (arg value : Val) (all : Bool) :
+    (Tools.modifyElement s pos (fun e => e.changeArg ch name arg value all)).err =
+      (e.changeArg ch name arg value all).err ∧
+    Dict.get? (Tools.modifyElement s pos (fun e => e.changeArg ch name arg value all)).st.data pos =
+      some (.el (e.changeArg ch name arg value all).st) ∧
+    ∀ p, p ≠ pos →
+      Dict.get? (Tools.modifyElement s pos (fun e => e.changeArg ch name arg value all)).st.data p =
+        Dict.get? s.data p := by
+  unfold Tools.modifyElement
+  simp only [hg]
+  exact ⟨trivial, Dict.get?_upsert_self _ _ _, fun p hp => Dict.get?_upsert_other _ _ _ _ hp⟩
+
+/-- **`sequence.element(pos).changeDuration(...)` delegates**: same statement -/
+theorem sequence_element_changeDuration_delegates (s : Sequence) (pos : ℤ) (e : Element)
+    (hg : Dict.get? s.data pos = some (.el e)) (ch : Chan) (name : String) (dur : Val) (all : Bool) :
+    (Tools.modifyElement s pos (fun e => e.changeDuration ch name dur all)).err =
+      (e.changeDuration ch name dur all).err ∧
+    Dict.get? (Tools.modifyElement s pos (fun e => e.changeDuration ch name dur all)).st.data pos =
+      some (.el (e.changeDuration ch name dur all).st) ∧
+    ∀ p, p ≠ pos →
+      Dict.get? (Tools.modifyElement s pos (fun e => e.changeDuration ch name dur all)).st.data p =
+        Dict.get? s.data p := by
+  unfold Tools.modifyElement
+  simp only [hg]
+  exact ⟨trivial, Dict.get?_upsert_self _ _ _, fun p hp => Dict.get?_upsert_other _ _ _ _ hp⟩
+
+/-- **the name invariant with in-place edits of stored elements**: for every sequence built through
+    the public sequence API *and* any number of `sequence.element(pos).changeArg / changeDuration`
+    calls in between (`G12.SeqBuiltE`; accepted or rejected, with or without `replaceeverywhere`),
+    every blueprint inside a stored element - at an element position or inside a stored subsequence -
+    has canonical, pairwise distinct names -/
+theorem sequence_blueprints_canonical_with_element_edits (s : Sequence) (h : G12.SeqBuiltE s) :
+    (∀ p e ch ent b, Dict.get? s.data p = some (.el e) → Dict.get? e.chans ch = some ent → ent.data = .bp b →
+      makeNamesUnique b.names = b.names ∧ b.names.Nodup) ∧
+    (∀ p (sub : SubSeq) q e ch ent b, Dict.get? s.data p = some (.sub sub) → Dict.get? sub.data q = some e →
+      Dict.get? e.chans ch = some ent → ent.data = .bp b →
+      makeNamesUnique b.names = b.names ∧ b.names.Nodup) := by
+  have hi := G12.seqBuiltE_elInv h
+  refine ⟨fun p e ch ent b hp hc hb => ?_, fun p sub q e ch ent b hp hq hc hb => ?_⟩
+  · have hinv : Inv b :=
+      (hi _ (Dict.mem_of_get?_eq_some p _ hp)).1 e rfl (ch, ent) (Dict.mem_of_get?_eq_some ch ent hc) b hb
+    exact ⟨hinv, inv_nodup hinv⟩
+  · have hinv : Inv b :=
+      (hi _ (Dict.mem_of_get?_eq_some p _ hp)).2 sub rfl _ (Dict.mem_of_get?_eq_some q e hq) (ch, ent)
+        (Dict.mem_of_get?_eq_some ch ent hc) b hb
+    exact ⟨hinv, inv_nodup hinv⟩
+
+/-- non-vacuity: the API-built sequence above with its stored element edited in place
+    (`element(1).changeArg(1, "a2", "stop", 5)`, accepted), then a second element added -/
+example : G12.SeqBuiltE
+      (Sequence.addElement
+        (Tools.modifyElement (Sequence.addElement (SeqCore.setSR {} (.num 10)) 1 g12Element).st 1
+          (fun e => e.changeArg (.int 1) "a2" (.str "stop") (.num 5) false)).st 2 g12Element).st ∧
+    (Tools.modifyElement (Sequence.addElement (SeqCore.setSR {} (.num 10)) 1 g12Element).st 1
+      (fun e => e.changeArg (.int 1) "a2" (.str "stop") (.num 5) false)).err = none :=
+  ⟨.addElement _ _ _ (.elementChangeArg _ _ _ _ _ _ _ (.addElement _ _ _ (.setSpec _ _ _ .empty) g12Element_built))
+      g12Element_built, by decide +kernel⟩
+
 end BB.C05
